@@ -34,14 +34,54 @@ def dispatch(prop):
         return p_dist.check
     raise ToolError('no check for ' + prop)
 
+def replay(prop, path):
+    """Re-run one recorded case against the current tree.  Exit 1 (with a VIOLATION line) if it still fails."""
+    import json
+    rec = json.load(open(path))
+    d = rec.get('detail', {})
+    print('replaying %s: %s' % (rec.get('key'), rec.get('what')))
+    still = None
+    if isinstance(d, dict) and 'tree0' in d and 'series' in d and 'cfg' in d:
+        import p_tool, ws
+        out = d.get('reference')
+        if out is not None:
+            probs, rc, se = p_tool.run_one(({'tree0': d['tree0'], 'series': d['series']}, d['cfg'], out, d.get('threads', 1), None))
+            ws.cleanup_all()
+            print('exit status %s; problems: %s' % (rc, probs))
+            still = bool(probs)
+    elif isinstance(d, dict) and 'F' in d and 'hs' in d:
+        import tempfile
+        case = {'F': d['F'], 'hs': d['hs'], 'runs': [[d['spec']]] if 'spec' in d else [[{'dir': d.get('dir', 'F'), 'lim': d.get('lim', 0), 'rep': d.get('rep', []), 'recon': d.get('out', [])}]]}
+        with tempfile.NamedTemporaryFile('w', suffix='.ndjson', delete=False) as f:
+            f.write(json.dumps(case) + '\n')
+        out = json.loads(rqh(['hunks', f.name, 0, '/dev/null']))
+        os.unlink(f.name)
+        print(json.dumps(out['counts']))
+        still = any(k in out['counts'] for k in ('diverges_from_alg', 'apply_panic', 'rollback_panic', 'rollback_mismatch', 'fuzz_nonmonotone', 'offset_mismatch'))
+    if still is None:
+        print(json.dumps(d, indent=1)[:4000])
+        print('(this kind of case is re-run by the property check itself; stored observation shown)')
+        return 0
+    if still:
+        print('VIOLATION property=%s replay=%s' % (prop, path))
+        return 1
+    print('the case no longer fails')
+    return 0
+
+
 def main():
     ap = argparse.ArgumentParser()
     ap.add_argument('prop')
     ap.add_argument('--tier', default=os.environ.get('VERIF_TIER', 'quick'))
     ap.add_argument('--no-build', action='store_true')
+    ap.add_argument('--replay', default=None)
     a = ap.parse_args()
     tier = a.tier if a.tier in ('quick', 'thorough') else 'quick'
     try:
+        if a.replay:
+            if not a.no_build:
+                build()
+            sys.exit(replay(a.prop, a.replay))
         fn = dispatch(a.prop)
         if not a.no_build:
             build()
